@@ -51,6 +51,10 @@ CLAIMS['C12'] = dict(
    text="Theorems (Props/C12.v) on panic- and fuel-explicit transcriptions: the WOZ chunk walk terminates without panic on every byte string (each step advances >= 8 bytes), TD0 sector unpack and the IMD track-record parser and the DOS binary/token unpackers return data or an error for EVERY input and never exhaust their fuel. Tie: outcome class and values of get_next_chunk, Imd::from_bytes on track records, unpack_bin must equal the extracted model on structured malformed inputs. Impl-side search (catch_unwind + 8 s watchdog + per-case process on crash): truncations, single-field and multi-field corruptions, extensions and splices of valid images of every container x file system, random bytes under every extension, corrupted token streams into the three detokenizers and the disassembler, corrupted FileImage/Records JSON, arbitrary metadata key paths; mount, stat, catalog, tree, glob, get of listed files. File-system directory walks are covered by the search only.",
    technique="Coq totality proofs on panic-explicit parser models + outcome-class correspondence + malformed-input search with watchdog",
    design_ref='DESIGN.md section 5 C12')
+CLAIMS['C10'] = dict(
+   text="Theorem (Props/C10.v) over the WHOLE finite cross product of the CLI value lists (7 OS x 23 kinds x 10 image types x 4 wrap options, all regenerated from cli.rs / img/mod.rs / names.rs / mkdsk.rs / dot2mg.rs / dpb.rs / bpb.rs): every tuple the decision model accepts has the parameters its file system needs (DPB, BPB, 13/16-sector capacity, block count). Tie and search are exhaustive: the real binary is run on every one of the 6440 tuples; accept/refuse must equal the model's decision; every accepted file is reopened (file system, empty tree, free space vs capacity, geometry) and must take and return a first file; every refusal must be an error return (no panic, no signal) that leaves no file. Volume names/numbers at the edges of their ranges, the boot flag and a missing volume are exercised on representative tuples.",
+   technique="Coq proof by exhaustive evaluation over the generated product + exhaustive run of the real CLI (translation-validated decision table)",
+   design_ref='DESIGN.md section 5 C10')
 PLANNED = {f'C{i:02d}': 'check not built yet in this round (planned; see DESIGN.md section 10)' for i in range(1, 21)}
 
 def main():
